@@ -14,6 +14,10 @@ func main() {
 		serveChild(os.Args[2:])
 		return
 	}
+	if len(os.Args) >= 2 && os.Args[1] == "udpfwd" {
+		udpfwdChild()
+		return
+	}
 	hx.Main(drivers)
 }
 
